@@ -287,6 +287,18 @@ func (s *Store) put(k objKey, old []byte, m jmap) []byte {
 	return b
 }
 
+// RewriteRaw edits the stored JSON of an object in place (a custom resource is stored exactly as
+// its author spelled it, e.g. the quantity "0.5", which the typed round trip would normalise).
+func (s *Store) RewriteRaw(k objKey, f func(jmap)) {
+	old, ok := s.objs[k]
+	if !ok {
+		return
+	}
+	m := toMap(old)
+	f(m)
+	s.put(k, old, m)
+}
+
 // Create stores a new object and returns its stored form.
 func (s *Store) Create(kind string, m jmap) ([]byte, error) {
 	ki := kinds[kind]
